@@ -281,3 +281,20 @@ V("c11-weights-added", "C11", "fire", GE, "    W = A * weights\n    # Permute ro
 V("c11-silent-lt", "C11", "silent", GE, "A = (A <= prob).astype(float)", "A = (prob > A).astype(float)", what="equivalent threshold")
 V("c11-silent-cols-first", "C11", "silent", GE, "    else:\n        return W[permutation, :][:, permutation]\n\n\ndef dag_full", "    else:\n        return W[:, permutation][permutation, :]\n\n\ndef dag_full", what="columns first")
 V("c11-silent-prob-form", "C11", "silent", GE, "prob = k / (p - 1)", "prob = float(k) / (p - 1.0)", what="float spelling of k/(p-1)")
+
+# ------------------------------------------------------------------------------- C12
+V("c12-max-ge", "C12", "fire", GE, "    if max_size > p:\n", "    if max_size >= p:\n", rule="GUARD.max-size", what="size = p rejected")
+V("c12-norepl-ge", "C12", "fire", GE, "        if max_size * K > p:\n", "        if max_size * K >= p:\n", rule="GUARD.without-replacement", what="exact partition rejected")
+V("c12-norepl-min", "C12", "fire", GE, "        if max_size * K > p:\n", "        if min_size * K > p:\n", rule="GUARD.without-replacement", what="feasibility tested with the minimum size", accept_inconclusive=True)
+V("c12-norepl-always", "C12", "fire", GE, "    if not replace:\n        if max_size * K > p:", "    if True:\n        if max_size * K > p:", rule="GUARD.without-replacement", what="feasibility guard also with replacement")
+V("c12-tuple-guard-dropped", "C12", "fire", GE, "    elif isinstance(size, tuple):\n        raise ValueError(\"The intervention size must be a positive integer or two-element tuple.\")\n", "", rule="GUARD.tuple-length", what="3-tuples treated as a size")
+V("c12-exclusive-upper", "C12", "fire", GE, "sizes = rng.integers(size[0], size[1] + 1, K)", "sizes = rng.integers(size[0], size[1], K)", rule="SIZES", what="upper size never drawn")
+V("c12-sizes-kminus", "C12", "fire", GE, "sizes = rng.integers(size[0], size[1] + 1, K)", "sizes = rng.integers(size[0], size[1] + 1, K - 1)", rule="SIZES", what="one size short")
+V("c12-choice-replace", "C12", "fire", GE, "intervention = list(rng.choice(targets, size=sizes[i], replace=False))", "intervention = list(rng.choice(targets, size=sizes[i], replace=True))", rule="CHOICE.distinct", what="repeated variable inside an intervention")
+V("c12-pool-not-shrunk", "C12", "fire", GE, "            remaining_targets -= set(intervention)\n", "", rule="POOL", what="pool never shrinks")
+V("c12-pool-from-1", "C12", "fire", GE, "        targets = list(range(p))\n", "        targets = list(range(1, p))\n", rule="POOL", what="variable 0 never sampled")
+V("c12-size-k", "C12", "fire", GE, "intervention = list(rng.choice(targets, size=sizes[i], replace=False))", "intervention = list(rng.choice(targets, size=sizes[0], replace=False))", rule="CHOICE.size", what="all interventions use the first size")
+V("c12-kplus-rounds", "C12", "fire", GE, "        targets = list(range(p))\n        for i, k in enumerate(range(K)):", "        targets = list(range(p))\n        for i, k in enumerate(range(K + 1)):", rule="COUNT", what="K+1 interventions")
+V("c12-silent-endpoint", "C12", "silent", GE, "sizes = rng.integers(size[0], size[1] + 1, K)", "sizes = rng.integers(size[0], size[1], K, endpoint=True)", what="endpoint=True")
+V("c12-silent-guard-flip", "C12", "silent", GE, "    if max_size > p:\n", "    if p < max_size:\n", what="flipped comparison")
+V("c12-silent-guard-merge", "C12", "silent", GE, "    if not replace:\n        if max_size * K > p:\n", "    if not replace and not (max_size * K <= p):\n        if True:\n", what="merged guard with negated <=")
